@@ -98,7 +98,7 @@ func c16Resign(m *nom.Momentum, kp *wallet.KeyPair) {
 var c16LastMutated string
 var c16LastMutatedBlock *nom.AccountBlock
 
-var c16Kinds = []string{"bad-signature", "wrong-producer", "non-pillar-producer", "wrong-changes-hash", "stale-hash", "block-mutated", "block-missing", "block-extra", "content-reordered", "timestamp-not-increasing", "data-not-empty"}
+var c16Kinds = []string{"bad-signature", "wrong-producer", "non-pillar-producer", "wrong-changes-hash", "stale-hash", "block-mutated", "block-missing", "block-extra", "content-reordered", "timestamp-not-increasing", "data-not-empty", "block-extra-on-empty"}
 
 // c16Corrupt corrupts element i of a batch (which was cloned) in the given way. Returns false if the kind is not applicable.
 func c16Corrupt(batch []*nom.DetailedMomentum, i int, kind string, r *rand.Rand) bool {
@@ -158,6 +158,21 @@ func c16Corrupt(batch []*nom.DetailedMomentum, i int, kind string, r *rand.Rand)
 		}
 		k := r.Intn(len(d.AccountBlocks))
 		d.AccountBlocks = append(append([]*nom.AccountBlock{}, d.AccountBlocks[:k]...), d.AccountBlocks[k+1:]...)
+	case "block-extra-on-empty":
+		// a momentum WITHOUT content that carries a block all the same: the first block of the next non-empty momentum
+		// (not yet confirmed at this point, usually applicable)
+		if len(d.AccountBlocks) != 0 || len(m.Content) != 0 {
+			return false
+		}
+		for j := i + 1; j < len(batch); j++ {
+			for _, b := range batch[j].AccountBlocks {
+				if b.BlockType == nom.BlockTypeUserSend || b.BlockType == nom.BlockTypeUserReceive {
+					d.AccountBlocks = append(d.AccountBlocks, simnet.CloneBlock(b))
+					return true
+				}
+			}
+		}
+		return false
 	case "block-extra":
 		// an unrelated block from another momentum of the batch
 		for j := range batch {
@@ -360,6 +375,17 @@ func c16Run(c *fw.C, caseID string) {
 				pos := int(overlap) + own - 2 + r.Intn(4)
 				if pos >= int(overlap) && pos < len(batch) {
 					corruptAt = pos
+				}
+			}
+			if kind == "block-extra-on-empty" {
+				var empties []int
+				for i, d := range batch[:len(batch)-1] {
+					if len(d.Momentum.Content) == 0 {
+						empties = append(empties, i)
+					}
+				}
+				if len(empties) > 0 {
+					corruptAt = empties[r.Intn(len(empties))]
 				}
 			}
 			c16LastMutatedBlock = nil
